@@ -576,14 +576,12 @@ pub fn run(run: &'static Run) {
     run.assume("signature programs end their output with LF and do not start it with an empty line (gpg, ssh-keygen, gpgsm all do)");
     run.budget_secs(run.pick(40.0, 600.0));
 
-    let t0 = std::time::Instant::now();
     let dir = vkit::scratch::Dir::new("c02");
     let fx = Fixture::new(dir.path());
     let msgs = messages();
     let sigs = signatures();
 
     // ---------------- commit-tree ----------------
-    eprintln!("[c02] {:.1}s before commit-tree", t0.elapsed().as_secs_f64());
     run.sub_with(
         "commit-tree",
         vkit::Opts::default().chunk(256),
@@ -759,7 +757,6 @@ pub fn run(run: &'static Run) {
     );
 
     // ---------------- tags via mktag ----------------
-    eprintln!("[c02] {:.1}s before tag", t0.elapsed().as_secs_f64());
     run.sub_with(
         "tag",
         vkit::Opts::default().chunk(256),
@@ -845,7 +842,6 @@ pub fn run(run: &'static Run) {
     );
 
     // ---------------- trees via mktree ----------------
-    eprintln!("[c02] {:.1}s before tree", t0.elapsed().as_secs_f64());
     run.sub_with(
         "tree",
         vkit::Opts::default().chunk(256),
@@ -896,7 +892,6 @@ pub fn run(run: &'static Run) {
     );
 
     // ---------------- merge of a signed tag: mergetag written by git itself ----------------
-    eprintln!("[c02] {:.1}s before merge", t0.elapsed().as_secs_f64());
     run.sub_with(
         "merge",
         vkit::Opts::default().chunk(32),
@@ -980,7 +975,6 @@ pub fn run(run: &'static Run) {
             verdict(check_commit(&bytes, oid(&head)).map(|c| format!("merge/{c}")))
         },
     );
-    eprintln!("[c02] {:.1}s end", t0.elapsed().as_secs_f64());
     run.cov_add("oracle_calls_git", 2 * run.sub_evaluations("commit-tree") + 14 * run.sub_evaluations("merge"));
     run.require("signed commits with an empty continuation line were decoded", run.outcome_count("commit/p1/extra-multi/empty-continuation") > 0);
     run.require("tags without tagger and with pgp block were decoded", run.outcome_count("tag/commit/no-tagger/pgp") > 0);
